@@ -49,9 +49,25 @@ deriving Repr, Inhabited
 
 /-! ### `serviceentry_visibility.go`: the visibility MeshConfig.serviceEntryVisibility resolves for a namespace -/
 
+/-- a matchExpressions requirement: key, operator, values -/
+inductive SelOp | isIn | notIn | ex | nex
+deriving Repr, Inhabited, DecidableEq
+
+structure SelExpr where
+  key : String
+  op : SelOp
+  values : List String
+deriving Repr, Inhabited
+
+/-- a namespace label selector: matchLabels and matchExpressions, all ANDed -/
+structure NsSelector where
+  labels : List (String × String) := []
+  exprs : List SelExpr := []
+deriving Repr, Inhabited
+
 /-- one matcher: `none` = unset matcher or a namespace selector without a label selector (never
-    matches), `some sel` = matchLabels (empty: matches every namespace) -/
-abbrev SevRule := Option (List (String × String))
+    matches), `some sel` = a label selector (empty: matches every namespace) -/
+abbrev SevRule := Option NsSelector
 
 structure SevPolicy where
   vis : SEVis
@@ -64,10 +80,23 @@ structure Sev where
   policies : List SevPolicy
 deriving Repr, Inhabited
 
-/-- `visibilityRule` match: every matchLabels pair is a label of the namespace -/
+def labelOf (nsl : List (String × String)) (k : String) : Option String := (nsl.find? (·.1 == k)).map (·.2)
+
+/-- a Kubernetes label selector requirement -/
+def selExprMatches (nsl : List (String × String)) (e : SelExpr) : Bool :=
+  match e.op, labelOf nsl e.key with
+  | .isIn, some v => e.values.contains v
+  | .isIn, none => false
+  | .notIn, some v => !e.values.contains v
+  | .notIn, none => true
+  | .ex, o => o.isSome
+  | .nex, o => o.isNone
+
+/-- `visibilityRule` match: every matchLabels pair is a label of the namespace and every
+    matchExpressions requirement holds -/
 def sevRuleMatches (nsl : List (String × String)) : SevRule → Bool
   | none => false
-  | some sel => sel.all fun kv => nsl.any fun kv' => kv'.1 == kv.1 && kv'.2 == kv.2
+  | some sel => (sel.labels.all fun kv => labelOf nsl kv.1 == some kv.2) && sel.exprs.all (selExprMatches nsl)
 
 /-- `visibilityPolicy.matches`: all rules match (an empty rule list is a catch-all) -/
 def sevPolicyMatches (nsl : List (String × String)) (p : SevPolicy) : Bool := p.rules.all (sevRuleMatches nsl)
